@@ -4,7 +4,8 @@
   * the guard under which each `CachedBackend` method consults the cache
     (`tpe.is_cacheable()` / `cacheable || tpe.is_cacheable()`), from backend/cache.rs;
   * whether `Cache::remove_not_in_list` stops at the first failing removal
-    (`self.remove(tpe, id)?`) or carries on (`early_exit`);
+    (`self.remove(tpe, id)?`) or carries on (`early_exit`); whether `Cache::list_with_size`
+    reports 64-hex files outside the canonical layout (`lists_strays`);
   * shape checks: the size test `cached_size != size`, the canonical path
     `<dirname>/<hex[0..2]>/<hex>`, the temporary name suffix, distinct directory names.
 Fails loudly (ExtractError) when an item no longer has the expected shape."""
@@ -111,6 +112,12 @@ def gen(repo):
     ls = fn_body(cache, "list_with_size")
     if "e.file_name().len() == 64" not in ls or "WalkDir::new(path)" not in ls or "is_file()" not in ls:
         raise ExtractError("Cache::list_with_size: listing filter changed")
+    # does the listing keep 64-hex files that are not at <dirname>/<hex[0..2]>/<hex>?
+    lsn = " ".join(ls.split())
+    canonical_only = "e.depth() == 2" in lsn and re.search(
+        r"e\.path\(\)\.parent\(\)\.and_then\(Path::file_name\)\.and_then\(\|d\| d\.to_str\(\)\) == e\.file_name\(\)\.to_str\(\)\.map\(\|c\| &c\[0\.\.2\]\)", lsn) is not None
+    if ("depth()" in lsn or "parent()" in lsn) and not canonical_only:
+        raise ExtractError("Cache::list_with_size: location filter has an unrecognised shape")
     wc = fn_body(cache, "write_bytes")
     if '"-tmp-"' not in wc or "fs::rename(&filename_tmp, &filename)" not in wc:
         raise ExtractError("Cache::write_bytes: tmp + rename shape changed")
@@ -128,7 +135,9 @@ def gen(repo):
     out.append("")
     out.append("(* Cache::remove_not_in_list: `self.remove(tpe, id)%s` *)" % ("?" if early_exit else " (errors collected, loop continues)"))
     out.append("Definition early_exit : bool := %s." % ("true" if early_exit else "false"))
-    meta = {"file_type_cacheable": ft, "blob_type_cacheable": bt, "guards": {k: v[1] for k, v in guards.items()},
+    out.append("(* Cache::list_with_size: %s *)" % ("only files at <dirname>/<hex[0..2]>/<hex>" if canonical_only else "every 64-hex file below <dirname>/"))
+    out.append("Definition lists_strays : bool := %s." % ("false" if canonical_only else "true"))
+    meta = {"lists_strays": not canonical_only, "file_type_cacheable": ft, "blob_type_cacheable": bt, "guards": {k: v[1] for k, v in guards.items()},
             "early_exit": early_exit, "dirnames": names}
     return "\n".join(out) + "\n", meta
 
